@@ -65,10 +65,12 @@ def nested_of_graph(g):
 
 
 class World(object):
-    def __init__(self, dendropy, nested, rooted, ntaxa, want_api=False):
+    def __init__(self, dendropy, nested, rooted, ntaxa, want_api=False, encoded=False):
         self.d = dendropy
         self.ns, self.taxa = build.make_namespace(dendropy, ntaxa, labels=TAXON_LABELS[:ntaxa])
         self.tree = build.build_tree(dendropy, nested, self.ns, self.taxa, rooted=bool(rooted))
+        if encoded:      # the start tree carries a current encoding (structure untouched)
+            self.tree.encode_bipartitions(suppress_unifurcations=False, collapse_unrooted_basal_bifurcation=False)
         self.ntaxa = ntaxa
         self.keys = {}
         self.keep = []
@@ -295,6 +297,10 @@ class World(object):
             if par is None:
                 return None
             return lambda: par.remove_child(nd, suppress_unifurcations=su)
+        if action == "ReAddChild":              # add_child of a node that already is a child: documented no-op
+            if par is None:
+                return None
+            return lambda: par.add_child(nd)
         if action == "RotateChildren":          # set_child_nodes with a rotation of the current children
             def rot():
                 c = nd.child_nodes()
@@ -364,7 +370,7 @@ def run_case(case):
     import dendropy
     want_api = case.get("prop") == "C07"
     if case["kind"] == "path":
-        w = World(dendropy, case["nested"], case["rooted"], case["ntaxa"], want_api=want_api)
+        w = World(dendropy, case["nested"], case["rooted"], case["ntaxa"], want_api=want_api, encoded=case.get("encoded", False))
         evs = []
         path = case["path"]
         for k, (name, args) in enumerate(path):
@@ -386,10 +392,11 @@ def random_history(dendropy, case, want_api):
     shape = build.random_parents(rng, nl, p_poly=0.25, p_unif=0.08 if case.get("unif") else 0.0)
     nested = build.assign(shape, rng, list(range(nl)), lengths=lens)
     nested[2] = None if rng.random() < 0.8 else 1
-    w = World(dendropy, nested, case["rooted"], nl, want_api=want_api)
+    w = World(dendropy, nested, case["rooted"], nl, want_api=want_api, encoded=case.get("encoded", False))
     fam = case["fam"]
     evs = []
     B = lambda: rng.random() < 0.5
+    UB = (lambda: True) if case.get("encoded") else B       # histories that keep the encoding current throughout
     for _ in range(case["nops"]):
         g, order = w.cur
         n = g["n"]
@@ -415,45 +422,45 @@ def random_history(dendropy, case, want_api):
         if act in REORIENT and nlv < 2:
             continue
         if act in ("ReseedAt", "RerootAtNode") and internal:
-            a = {"x": rng.choice(internal), "ub": B(), "su": B(), "cb": B()}
+            a = {"x": rng.choice(internal), "ub": UB(), "su": B(), "cb": B()}
         elif act == "RerootAtEdge" and nonseed:
             l1, l2 = rng.choice([(-1, -1), (SCALE, 2 * SCALE), (0, SCALE), (SCALE // 2, SCALE // 2), (2 * SCALE, -1), (3 * SCALE, 0)])
-            a = {"x": rng.choice(nonseed), "l1": l1, "l2": l2, "ub": B(), "su": B()}
+            a = {"x": rng.choice(nonseed), "l1": l1, "l2": l2, "ub": UB(), "su": B()}
         elif act == "RerootAtMidpoint":
             ok = (in_domain and len(leaves) >= 2 and all(g["tx"][i] for i in leaves) and len(leaf_taxa) == len(leaves)
                   and all(g["len"][i] >= 0 for i in range(n) if g["par"][i] != 0))
             if ok:
-                a = {"ub": B(), "su": B(), "cb": B()}
+                a = {"ub": UB(), "su": B(), "cb": B()}
         elif act == "ToOutgroupPosition" and nonseed:
-            a = {"x": rng.choice(nonseed), "ub": B(), "su": B()}
+            a = {"x": rng.choice(nonseed), "ub": UB(), "su": B()}
         elif act == "Deroot":
             a = {}
         elif act in ("CollapseBasalBifurcation", "PolytomizeRoot", "Ladderize", "Reorder"):
             a = {"f": B()}
         elif act in ("SuppressUnifurcations", "ResolvePolytomies"):
-            a = {"ub": B()}
+            a = {"ub": UB()}
         elif act == "ResolvePolytomiesRng":
-            a = {"ub": B(), "seed": rng.randrange(1 << 20)}
+            a = {"ub": UB(), "seed": rng.randrange(1 << 20)}
         elif act == "CollapseEdge" and nonseed:
             a = {"x": rng.choice(nonseed), "f": B()}
         elif act == "CollapseClade" and internal:
             a = {"x": rng.choice(internal)}
         elif act == "CollapseUnweightedEdges":
-            a = {"l1": rng.choice([0, 0, SCALE]), "ub": B()}
+            a = {"l1": rng.choice([0, 0, SCALE]), "ub": UB()}
         elif act == "PruneSubtree" and len(leaf_taxa) > 3:
             x = rng.choice(nonseed + [keys[g["seed"] - 1]] if rng.random() < 0.1 else nonseed)
             if x == keys[g["seed"] - 1] or prunable(x):
-                a = {"x": x, "ub": B(), "su": B()}
+                a = {"x": x, "ub": UB(), "su": B()}
         elif act in ("PruneTaxa", "FilterLeafNodes") and len(leaf_taxa) > 3:
             S = rng.sample(leaf_taxa, rng.randint(1, 2))
-            a = {"S": S, "ub": B(), "su": B(), "api": rng.choice(["", "labels"]) if act == "PruneTaxa" else ""}
+            a = {"S": S, "ub": UB(), "su": B(), "api": rng.choice(["", "labels"]) if act == "PruneTaxa" else ""}
         elif act == "RetainTaxa" and len(leaf_taxa) > 3:
             S = rng.sample(leaf_taxa, len(leaf_taxa) - rng.randint(1, 2))
-            a = {"S": S, "ub": B(), "su": B(), "api": rng.choice(["", "labels"])}
+            a = {"S": S, "ub": UB(), "su": B(), "api": rng.choice(["", "labels"])}
         elif act == "PruneLeavesWithoutTaxa" and leaf_taxa:
-            a = {"ub": B(), "su": B()}
+            a = {"ub": UB(), "su": B()}
         elif act in ("RandomlyReorient",):
-            a = {"seed": rng.randrange(1 << 20), "ub": B()}
+            a = {"seed": rng.randrange(1 << 20), "ub": UB()}
         elif act in ("RandomlyRotate", "ShuffleTaxa"):
             a = {"seed": rng.randrange(1 << 20)}
         elif act == "NewChild" and internal and n < 30:
@@ -466,6 +473,8 @@ def random_history(dendropy, case, want_api):
             x = rng.choice(nonseed)
             if prunable(x):
                 a = {"x": x, "su": B()}
+        elif act == "ReAddChild" and nonseed:
+            a = {"x": rng.choice(nonseed)}
         elif act == "RotateChildren" and internal:
             a = {"x": rng.choice(internal)}
         elif act == "Regraft" and nonseed and len(internal) > 1:
@@ -498,7 +507,7 @@ ALL_FAM = ["ReseedAt", "RerootAtNode", "RerootAtEdge", "RerootAtMidpoint", "ToOu
            "CollapseUnweightedEdges", "ResolvePolytomies", "ResolvePolytomiesRng", "PruneSubtree", "PruneTaxa",
            "FilterLeafNodes", "RetainTaxa", "PruneLeavesWithoutTaxa", "Ladderize", "Reorder", "RandomlyReorient",
            "RandomlyRotate", "ShuffleTaxa", "NewChild", "InsertNewChild", "InsertChild", "RemoveChild",
-           "RotateChildren", "Regraft", "EncodeBipartitions",
+           "RotateChildren", "ReAddChild", "Regraft", "EncodeBipartitions",
            # weight: reorientations are the mutators with most internal state
            "ReseedAt", "RerootAtNode", "RerootAtEdge", "RerootAtMidpoint", "ToOutgroupPosition", "EncodeBipartitions"]
 REORIENT_FAM = ["ReseedAt", "RerootAtNode", "RerootAtEdge", "RerootAtMidpoint", "ToOutgroupPosition", "Ladderize",
@@ -514,7 +523,7 @@ def random_cases(ctx, prop, n, nops, salt):
         if prop == "C07" and None in pat and i % 2:
             pat = (0, 1, 1, 2)
         out.append({"kind": "random", "prop": prop, "seed": rng.randrange(1 << 30), "nleaves": rng.randint(5, 12),
-                    "lengths": list(pat), "rooted": i % 2, "nops": nops, "unif": (i % 3 == 0),
+                    "lengths": list(pat), "rooted": i % 2, "nops": nops, "unif": (i % 3 == 0), "encoded": (i % 4 == 1),
                     "fam": REORIENT_FAM if prop == "C07" else ALL_FAM})
     return out
 
@@ -538,7 +547,7 @@ def model_cases(ctx, prop, cfg, tag, max_cases=None):
             continue
         nested, rooted, ntaxa = starts[root[u]]
         cases.append({"kind": "path", "prop": prop, "nested": nested, "rooted": rooted, "ntaxa": ntaxa,
-                      "path": paths[u] + [(name, args)]})
+                      "encoded": len(cases) % 2 == 1, "path": paths[u] + [(name, args)]})
     if max_cases is not None and len(cases) > max_cases:
         rng = random.Random(ctx.seed + 77)
         cases = rng.sample(cases, max_cases)
